@@ -11,14 +11,17 @@ import numpy as np
 DTYPES = ["uint8", "uint16", "uint32", "uint64", "float32"]
 
 
-def build_info(model_info, dtype, channels, encoding, block=None, sharding=None):
+def build_info(model_info, dtype, channels, encoding, block=None, sharding=None, per_scale=None):
+    """per_scale: optional list of (encoding, block) per scale - scales of one
+    dataset may use different encodings / block sizes"""
     scales = []
     for k, sc in enumerate(model_info):
+        enc_k, block_k = per_scale[k] if per_scale else (encoding, block)
         s = {"key": "s%d" % (k + 1), "size": list(sc["size"]),
              "chunk_sizes": [list(c) for c in sc["chunks"]],
-             "resolution": [2 ** k] * 3, "voxel_offset": [0, 0, 0], "encoding": encoding}
-        if encoding == "compressed_segmentation":
-            s["compressed_segmentation_block_size"] = list(block or [8, 8, 8])
+             "resolution": [2 ** k] * 3, "voxel_offset": [0, 0, 0], "encoding": enc_k}
+        if enc_k == "compressed_segmentation":
+            s["compressed_segmentation_block_size"] = list(block_k or [8, 8, 8])
         if sharding:
             s["sharding"] = dict(sharding)
         scales.append(s)
@@ -80,8 +83,17 @@ def open_accessor(kind, base, write):
     return sfa.ShardedFileAccessor(base, strategy=kind.get("strategy", "in memory"))
 
 
+NARROWER = {"uint64": ["uint32", "uint16", "uint8"], "uint32": ["uint16", "uint8"], "uint16": ["uint8"],
+            "float32": ["uint8", "uint16"]}
+
+
 def run_history(workdir, model_info, ops, kind, dtype, channels, encoding, rng,
-                block=None, enc_opts=None):
+                block=None, enc_opts=None, per_scale=None, prior=False, narrow=False):
+    """per_scale: [(encoding, block)] per scale (mixed encodings in one dataset);
+    prior: the directory first holds ANOTHER dataset, opened once through the same
+    accessor object, then re-created in place (overwrite_info); re-opens then also
+    re-use the same accessor object; narrow: some arrays are passed in a narrower
+    type that converts safely to the dataset's."""
     """Replay one behaviour. For sharded accessors the behaviour is normalised
     to write-once-then-close-then-read (what that accessor offers)."""
     from neuroglancer_scripts import precomputed_io as pio
@@ -93,11 +105,11 @@ def run_history(workdir, model_info, ops, kind, dtype, channels, encoding, rng,
         sharding = {"@type": "neuroglancer_uint64_sharded_v1", "minishard_bits": kind["mb"],
                     "shard_bits": kind["sb"], "preshift_bits": kind["pb"], "hash": "identity",
                     "minishard_index_encoding": kind["enc"], "data_encoding": kind["enc"]}
-    info = build_info(model_info, dtype, channels, encoding, block, sharding)
+    info = build_info(model_info, dtype, channels, encoding, block, sharding, per_scale)
     events = []
     accs = []
     held = []
-    lossy = encoding == "jpeg"
+    lossy = [sc["encoding"] == "jpeg" for sc in info["scales"]]
 
     def mk_acc():
         a = open_accessor(kind, base, True)
@@ -107,7 +119,19 @@ def run_history(workdir, model_info, ops, kind, dtype, channels, encoding, rng,
     try:
         with contextlib.redirect_stdout(io.StringIO()):
             acc = mk_acc()
-            writer = pio.get_IO_for_new_dataset(info, acc, encoder_options=enc_opts or {})
+            if prior and kind["acc"] == "file":
+                # an earlier dataset with another description in the same place, opened
+                # through this very accessor object before being replaced
+                pinfo = build_info(model_info[:1], "float32" if dtype != "float32" else "uint16", 1, "raw")
+                pw = pio.get_IO_for_new_dataset(pinfo, acc)
+                sc0 = model_info[0]
+                c0 = [0, min(sc0["chunks"][0][0], sc0["size"][0]), 0, min(sc0["chunks"][0][1], sc0["size"][1]),
+                      0, min(sc0["chunks"][0][2], sc0["size"][2])]
+                pw.write_chunk(make_array(rng, (1, c0[5], c0[3], c0[1]), pinfo["data_type"]), "s1", tuple(c0))
+                pio.get_IO_for_existing_dataset(acc).read_chunk("s1", tuple(c0))
+                writer = pio.get_IO_for_new_dataset(info, acc, overwrite_info=True, encoder_options=enc_opts or {})
+            else:
+                writer = pio.get_IO_for_new_dataset(info, acc, encoder_options=enc_opts or {})
             if kind["acc"] == "sharded":
                 seen = set()
                 wops = []
@@ -125,7 +149,8 @@ def run_history(workdir, model_info, ops, kind, dtype, channels, encoding, rng,
                 if op["op"] == "reopen":
                     if kind["acc"] == "sharded":
                         acc.close()
-                    acc = mk_acc()
+                    if not (prior and kind["acc"] == "file" and rng.random() < 0.6):
+                        acc = mk_acc()          # else: a fresh handle on the SAME accessor object
                     io_obj = pio.get_IO_for_existing_dataset(acc, encoder_options=enc_opts or {})
                     events.append({"op": "reopen", "s": 0, "c": [], "res": "ok", "shape": [], "dt": "", "bytes": []})
                     continue
@@ -133,10 +158,18 @@ def run_history(workdir, model_info, ops, kind, dtype, channels, encoding, rng,
                 c = tuple(op["c"])
                 if op["op"] == "write":
                     shape = (channels, c[5] - c[4], c[3] - c[2], c[1] - c[0])
-                    arr = make_array(rng, shape, dtype, smooth=lossy)
+                    lossy_k = 1 <= op["s"] <= len(lossy) and lossy[op["s"] - 1]
+                    arr = make_array(rng, shape, dtype, smooth=lossy_k)
+                    as_dataset = arr
+                    if narrow and not lossy_k and dtype in NARROWER and rng.random() < 0.4:
+                        nd = NARROWER[dtype][int(rng.integers(0, len(NARROWER[dtype])))]
+                        arr = (arr % (np.iinfo(nd).max + 1)).astype(nd) if np.dtype(dtype).kind == "u" \
+                            else np.clip(np.rint(arr), 0, np.iinfo(nd).max).astype(nd)
+                        as_dataset = arr.astype(dtype)          # exact: the narrower type converts safely
                     arr, layout = relayout(rng, arr)
                     ev = {"op": "write", "s": op["s"], "c": list(c), "shape": list(arr.shape),
-                          "dt": str(np.dtype(dtype).name), "bytes": enc_bytes(arr), "layout": layout}
+                          "dt": str(np.dtype(dtype).name), "bytes": enc_bytes(as_dataset), "layout": layout,
+                          "passed_as": str(arr.dtype.name)}
                     try:
                         io_obj.write_chunk(arr, key, c)
                         ev["res"] = "ok"
